@@ -144,7 +144,30 @@ type hcase struct {
 	OptS   string `json:"opts"`
 	Method string `json:"method"`
 	Body   string `json:"body,omitempty"` // add body class
+	Enc    string `json:"path_spelling,omitempty"` // percent-encoded spelling of the same path ("" = canonical)
 	Target string `json:"target"`
+}
+
+// pathSpellings: equivalent spellings of a command path with one unreserved
+// byte percent-encoded. The IPFS daemon (like any net/http server) dispatches
+// on the decoded path, so each of them is the same request.
+var pathSpellings = []string{"", "cmd-last-letter", "cmd-first-letter", "version-digit", "api-letter", "arg-slash"}
+
+func pct(b byte) string { return fmt.Sprintf("%%%02X", b) }
+
+// spell rewrites the canonical command path "/api/v0/<cmd>".
+func spell(enc, cmd string) string {
+	switch enc {
+	case "cmd-last-letter":
+		return "/api/v0/" + cmd[:len(cmd)-1] + pct(cmd[len(cmd)-1])
+	case "cmd-first-letter":
+		return "/api/v0/" + pct(cmd[0]) + cmd[1:]
+	case "version-digit":
+		return "/api/v" + pct('0') + "/" + cmd
+	case "api-letter":
+		return "/" + pct('a') + "pi/v0/" + cmd
+	}
+	return "/api/v0/" + cmd
 }
 
 func optString(o []kv) string {
@@ -160,11 +183,15 @@ func (c *hcase) finish() {
 	if c.Cmd == "pin/update" {
 		c.ToN = c.To.Name
 	}
-	p := "/api/v0/" + c.Cmd
+	p := spell(c.Enc, c.Cmd)
 	var q []string
 	if c.Style == "slash" {
 		if c.Arg.Val != nil {
-			p += "/" + url.PathEscape(*c.Arg.Val)
+			sep := "/"
+			if c.Enc == "arg-slash" {
+				sep = "%2F"
+			}
+			p += sep + url.PathEscape(*c.Arg.Val)
 		} else {
 			p += "/"
 		}
@@ -610,7 +637,7 @@ func runHijackCases(t *testing.T, sec *ev.Section, cases []hcase) {
 		o := g.do(c.Method, c.Target, body, ctype, dStatus, dBody)
 		viols, outcome := evalHijack(c, body, dStatus, dBody, o)
 		R.Outcome(sec, outcome)
-		sig := strings.Join([]string{c.Cmd, c.Style, c.ArgN, c.ToN, c.OptS, c.Method, c.Body, outcome}, "|")
+		sig := strings.Join([]string{c.Cmd, c.Style, c.ArgN, c.ToN, c.OptS, c.Method, c.Body, c.Enc, outcome}, "|")
 		R.Eval(sec, sig, o.ClientErr == "" && o.Panic == "")
 		if i%997 == 0 {
 			R.SampleTagged("hijack-space", 6, map[string]interface{}{"case": c, "outcome": outcome, "status": o.Status, "rpc": callIDs(o.RPC), "daemon_requests": len(o.Daemon)})
@@ -640,6 +667,9 @@ func runHijackCases(t *testing.T, sec *ev.Section, cases []hcase) {
 }
 
 func hijackKey(c *hcase, v vio) string {
+	if c.Enc != "" {
+		return fmt.Sprintf("C12|%s|%s|spelling:%s|%s", c.Cmd, c.Style, c.Enc, v.symptom)
+	}
 	if strings.Contains(v.symptom, "|") { // option-specific defects: keyed by option, not by style
 		return fmt.Sprintf("C12|%s|%s", c.Cmd, v.symptom)
 	}
@@ -678,6 +708,30 @@ func TestHijackSingles(t *testing.T) {
 	sec.Bounds["methods"] = allMethods
 	sec.Bounds["pin/update to-path"] = "fixed /ipfs/<cidA> (varied in hijack/pin-update-to)"
 	sec.Bounds["add body"] = "one 40-byte file (varied in hijack/add-bodies)"
+	runHijackCases(t, sec, cases)
+}
+
+// TestHijackPathSpellings: every command x style x a few arguments x method,
+// requested through each percent-encoded spelling of the command path.
+func TestHijackPathSpellings(t *testing.T) {
+	sec := R.Sec("hijack/percent-encoded-path-spellings")
+	var cases []hcase
+	for _, cmd := range commands {
+		for _, style := range []string{"query", "slash"} {
+			for _, an := range []string{"cid", "ipfs-path", "missing"} {
+				for _, enc := range pathSpellings[1:] {
+					if enc == "arg-slash" && style != "slash" {
+						continue
+					}
+					for _, m := range allMethods {
+						cases = append(cases, hcase{Cmd: cmd, Style: style, Arg: argByName(an), To: argByName("ipfs-path"), Method: m, Body: bodyFor(cmd), Enc: enc})
+					}
+				}
+			}
+		}
+	}
+	sec.Bounds["spellings"] = pathSpellings[1:]
+	sec.Bounds["args"] = []string{"cid", "ipfs-path", "missing"}
 	runHijackCases(t, sec, cases)
 }
 
